@@ -7,6 +7,7 @@ import (
 	"time"
 
 	"github.com/virus-evolution/gofasta/pkg/fastaio"
+	"github.com/virus-evolution/gofasta/pkg/variants"
 )
 
 // REORD: drive the exported order-restoring writers with an arbitrary arrival permutation
@@ -53,6 +54,41 @@ func reordGen(r *RNG, id string) *Case {
 	}
 	c.SetInt("n", n).Set("perm", strings.Join(ps, ","))
 	c.SetInt("wrap", r.PickInt([]int{-1, -1, 3, 10}))
+	c.Set("writer", "fasta").SetInt("refidx", -1).SetInt("first", 0)
+	if r.Chance(1, 2) {
+		// variants.WriteVariants: the record named like the reference is skipped wherever it sits and whenever it arrives
+		// (often near the end, so that it can be the last arrival with later records already waiting); with first = 1 the
+		// reference was taken off the front by the reader and the indices start at 1
+		c.Set("writer", "variants")
+		if r.Chance(3, 4) {
+			at := r.Intn(n)
+			if r.Bool() && n > 1 {
+				at = n - 1 - r.Intn(min(n, 3))
+			}
+			c.SetInt("refidx", at)
+			c.Tag("reference-record-inside")
+			if r.Chance(2, 3) { // the reference's worker is the slowest: everything else is already waiting when it arrives
+				var q []int
+				for _, p := range perm {
+					if p != at {
+						q = append(q, p)
+					}
+				}
+				perm = append(q, at)
+				ps = ps[:0]
+				for _, p := range perm {
+					ps = append(ps, fmt.Sprint(p))
+				}
+				c.Set("perm", strings.Join(ps, ","))
+			}
+			if perm[n-1] == at && at != n-1 {
+				c.Tag("reference-arrives-last")
+			}
+		} else {
+			c.SetInt("first", 1)
+		}
+		c.Tag("WriteVariants")
+	}
 	c.SetInt("seqlen", r.Range(1, 25))
 	c.NonTrv = true
 	return c
@@ -65,6 +101,34 @@ func execReord(r *RNG, c *Case) {
 	}
 	wrap := atoi(c.Get("wrap"))
 	sl := atoi(c.Get("seqlen"))
+	if c.Get("writer") == "variants" {
+		first, refidx := atoi(c.Get("first")), atoi(c.Get("refidx"))
+		res := safeRun(20*time.Second, func() (string, error) {
+			ch := make(chan variants.AnnoStructs)
+			cdone := make(chan bool)
+			cerr := make(chan error)
+			var out bytes.Buffer
+			go variants.WriteVariants(&out, -1, -1, first == 1, false, "theRef", ch, cdone, cerr)
+			go func() {
+				for _, i := range perm {
+					name := fmt.Sprintf("r%d", i)
+					if i == refidx {
+						name = "theRef"
+					}
+					ch <- variants.AnnoStructs{Queryname: name, Idx: i + first}
+				}
+				close(ch)
+			}()
+			select {
+			case <-cdone:
+				return out.String(), nil
+			case err := <-cerr:
+				return out.String(), err
+			}
+		})
+		c.Set("go", goField(res))
+		return
+	}
 	res := safeRun(20*time.Second, func() (string, error) {
 		ch := make(chan fastaio.FastaRecord)
 		cdone := make(chan bool)
